@@ -96,7 +96,11 @@ func (x *Exec) LeakCheck(sig string) *vcore.Failure {
 				}
 			}
 		}
-		keep, known := x.keepDecision(f.Policy, ko, wl, holdings)
+		pol := f.Policy
+		if wl != nil {
+			pol = uint16(wl.PolicyNum())
+		}
+		keep, known := x.keepDecision(pol, ko, wl, holdings)
 		if !known {
 			continue
 		}
